@@ -618,6 +618,13 @@ func addHub(b *gBundle, r *RNG) {
 			calls.WriteString("{call lib.u." + short + " /}")
 		}
 	}
+	// names that differ only in case, or that a case-insensitive / non-stable order would tie or swap
+	for _, short := range []string{"Row", "row", "ROW", "rOw", "A", "B", "Ab", "aB", "a_b", "Z9", "z9"} {
+		lib.tmpls = append(lib.tmpls, &gTemplate{ns: lib.ns, short: short, body: "[" + short + "]"})
+	}
+	for _, k := range r.Perm(11) {
+		calls.WriteString("{call lib.u." + []string{"Row", "row", "ROW", "rOw", "A", "B", "Ab", "aB", "a_b", "Z9", "z9"}[k] + " /}")
+	}
 	hub := &gTemplate{ns: b.files[0].ns, short: "hub", body: calls.String() + "{round(1.5)}{'abcdef'|truncate:3}{floor(2.5)|escapeUri}{max(1, 2)}"}
 	b.files[0].tmpls = append(b.files[0].tmpls, hub)
 	b.files = append(b.files, lib)
